@@ -20,7 +20,8 @@ from ..common import Ctx
 LEVEL = "exploration"
 SHARDS = {"quick": 16, "thorough": 16}
 FLOOR = {"quick": 20000, "thorough": 500000}
-REQUIRED_COUNTERS = ["split_inside_multibyte", "split_inside_crlf", "split_between_event_lines",
+REQUIRED_COUNTERS = ["split_inside_multibyte", "split_inside_crlf", "split_between_event_lines", "concurrent_batches", "aborted_streams",
+                     "batches_with_interleaved_delivery",
                      "refmodel_checks", "items_yielded"]
 RULE = ("streams from a seeded SSE/NDJSON grammar (LF/CRLF/CR terminators, multi-line data, comments, empty data, "
         "event/id/retry, 2-4 byte UTF-8, unterminated final event); all 2^(n-1) chunkings of streams <= 14 bytes, "
@@ -237,6 +238,90 @@ async def check_stream(ctx: Ctx, kind: str, fns: dict, s: bytes, expected: Any, 
                     "unsplit_items": repr(base.get("iter_sse", base.get("iter_ndjson")))[:300]})
 
 
+async def _agen_sched(chunks, sched, log, sid, fail_after=None):
+    """Chunks arrive with a schedule-dependent number of event-loop turns in between (other streams run meanwhile)."""
+    import httpx
+
+    for i, c in enumerate(chunks):
+        for _ in range(sched[i % len(sched)]):
+            await asyncio.sleep(0)
+        if fail_after is not None and i == fail_after:
+            raise httpx.ReadError("connection dropped (injected)")
+        log.append(sid)
+        yield c
+
+
+async def decode_sched(fn, chunks, sched, log, sid, fail_after=None):
+    import httpx
+
+    r = httpx.Response(200, content=_agen_sched(chunks, sched, log, sid, fail_after))
+    out = []
+    try:
+        async for x in fn(r):
+            out.append(x)
+    except Exception as e:
+        return out, type(e).__name__
+    return out, None
+
+
+async def run_concurrent_case(ctx: Ctx, fns: dict, case: dict) -> None:
+    """case = {"decoder", "kind", "streams": [{"hex", "points", "sched"}], "abort": {...} | None}"""
+    rec = ctx.rec
+    fn = fns[case["decoder"]]
+    k = "sse" if case["decoder"] == "iter_sse" else "other"
+    streams = [(bytes.fromhex(x["hex"]), tuple(x["points"]), x["sched"]) for x in case["streams"]]
+    base = [norm(k, await decode(fn, [s])) for s, _, _ in streams]
+    log: list[int] = []
+    feats = ["interleaved_streams", case["kind"]]
+    if case.get("abort"):
+        # a stream whose connection drops in the middle of an event, then fresh streams decoded by the same process
+        a = case["abort"]
+        got, exc = await decode_sched(fn, split(bytes.fromhex(a["hex"]), tuple(a["points"])), [0], log, -1, fail_after=a["fail_after"])
+        rec.count("aborted_streams")
+        if exc is None:
+            rec.count("aborted_stream_did_not_raise_diagnostic")
+    res = await asyncio.gather(*[decode_sched(fn, split(s, pts), sched, log, i) for i, (s, pts, sched) in enumerate(streams)])
+    rec.count("concurrent_batches")
+    rec.count("concurrent_streams", len(streams))
+    order = tuple(log)
+    rec.seen("delivery_orders", hash(order) % 10 ** 9)
+    if any(order[i] != order[i + 1] for i in range(len(order) - 1)) and len(set(order)) > 1:
+        rec.count("batches_with_interleaved_delivery")
+    rec.case({"concurrent": case}, nontrivial=len(streams) >= 2 or bool(case.get("abort")))
+    for i, (got, exc) in enumerate(res):
+        g = norm(k, got) if exc is None else ("EXC", exc)
+        if g != base[i]:
+            sig = "after_aborted_stream" if case.get("abort") and len(streams) == 1 else "concurrent_streams"
+            rec.violation(f"interleaving:{sig}:{case['decoder']}", feats, {"concurrent": case, "stream_index": i},
+                          f"stream {i}: unsplit alone {base[i]!r} vs chunked beside other streams {g!r}")
+
+
+def concurrent_cases(ctx: Ctx, n: int):
+    rng = ctx.rng
+    for _ in range(n):
+        use_sse = rng.random() < 0.75
+        decoder = rng.choice(["iter_sse", "iter_sse_events_text"]) if use_sse else "iter_ndjson"
+        streams = []
+        for _k in range(rng.choice([1, 2, 2, 3])):
+            while True:
+                s, _e = gen_sse(rng, True) if use_sse else gen_ndjson(rng, True)
+                if len(s) >= 8:
+                    break
+            pts = tuple(sorted(rng.sample(range(1, len(s)), min(len(s) - 1, rng.randint(2, 9)))))
+            streams.append({"hex": s.hex(), "points": list(pts), "sched": [rng.randint(0, 2) for _ in range(5)]})
+        abort = None
+        if rng.random() < 0.4:
+            while True:
+                s, _e = gen_sse(rng, True) if use_sse else gen_ndjson(rng, True)
+                if len(s) >= 12:
+                    break
+            pts = tuple(sorted(rng.sample(range(1, len(s)), min(len(s) - 1, 4))))
+            abort = {"hex": s.hex(), "points": list(pts), "fail_after": rng.randint(1, len(pts))}
+            if rng.random() < 0.5:
+                streams = streams[:1]
+        yield {"decoder": decoder, "kind": "sse" if use_sse else "ndjson", "streams": streams, "abort": abort}
+
+
 def helpers():
     common.use_repo()
     from pyopenapi_gen.core import streaming_helpers as sh
@@ -282,6 +367,10 @@ def run_shard(ctx: Ctx) -> None:
                 continue
             ctx.rec.count("long_streams")
             await check_stream(ctx, kind, fns, s, exp, plain)
+        # several streams decoded at the same time on one event loop (chunk boundaries are where they interleave), and
+        # fresh streams decoded after one whose connection dropped in the middle of an event
+        for case in concurrent_cases(ctx, 60 if ctx.quick else 1500):
+            await run_concurrent_case(ctx, sse if case["kind"] == "sse" else nd, case)
 
     asyncio.run(go())
 
@@ -289,6 +378,9 @@ def run_shard(ctx: Ctx) -> None:
 def replay(ctx: Ctx, file: dict) -> None:
     sse, nd = helpers()
     c = file["case"]
+    if "concurrent" in c:
+        asyncio.run(run_concurrent_case(ctx, sse if c["concurrent"]["kind"] == "sse" else nd, c["concurrent"]))
+        return
     s = bytes.fromhex(c["hex"])
     fns = sse if c.get("kind") == "sse" else nd
 
